@@ -4,7 +4,7 @@
    correspondence run) and the documented effects; the theorems say they coincide for ALL lists. *)
 From Coq Require Import List Arith Bool.
 From BS Require Import Base.Sexp Model.Heap Model.Edit Spec.Tree Spec.ListEdit
-  Proofs.HeapBasics Proofs.ExtractRep Proofs.InsertRep Proofs.ListEditProofs Proofs.EditBase Proofs.EditRep Model.EditOps.
+  Proofs.HeapBasics Proofs.ExtractRep Proofs.InsertRep Proofs.ListEditProofs Proofs.EditBase Proofs.EditRep Proofs.EditEffect Model.EditOps.
 Import ListNotations.
 
 (* a successful _insert of a parentless child puts it at the requested (clipped) index *)
@@ -93,3 +93,46 @@ Theorem C02_calls_total : forall s o, consistent s -> wf_op_b s o = true ->
   exists s', apply_op s o = Ok s' /\ consistent s'.
 Proof. exact op_total_b. Qed.
 Print Assumptions C02_calls_total.
+
+(* ---- the documented effect holds of the heap-level calls themselves ----
+   For existing (non-BeautifulSoup) element arguments cs, in any consistent state and for any
+   admissible call, the call's effect on the receiving tag's child list IS the documented splice
+   (arguments contiguous, in order, at the requested place; the other children keep their order),
+   the arguments leave their old parents, and nothing else moves. *)
+Theorem C02_insert_documented : forall s self pos args cs s',
+  consistent s -> wf_op s (OInsert self pos args) -> elem_args s args cs ->
+  op_insert s self pos args = Ok s' ->
+  kids (hp s' self) = splice_spec pos cs (kids (hp s self)).
+Proof. exact op_insert_documented. Qed.
+Print Assumptions C02_insert_documented.
+
+Theorem C02_insert_nothing_else_moves : forall s self pos args cs s',
+  consistent s -> wf_op s (OInsert self pos args) -> elem_args s args cs ->
+  op_insert s self pos args = Ok s' ->
+  (forall q, live s q -> q <> self ->
+     kids (hp s' q) = filter (fun y => negb (mem y cs)) (kids (hp s q))) /\
+  (forall c, In c cs -> par (hp s' c) = Some self) /\
+  (forall y, live s y -> ~ In y cs -> par (hp s' y) = par (hp s y)).
+Proof. exact op_insert_frame. Qed.
+Print Assumptions C02_insert_nothing_else_moves.
+
+Theorem C02_insert_before_documented : forall s self p args cs s',
+  consistent s -> wf_op s (OInsertBefore self args) -> elem_args s args cs -> par (hp s self) = Some p ->
+  op_insert_before s self args = Ok s' ->
+  kids (hp s' p) = before_spec self cs (kids (hp s p)).
+Proof. exact op_insert_before_documented. Qed.
+Print Assumptions C02_insert_before_documented.
+
+Theorem C02_insert_after_documented : forall s self p args cs s',
+  consistent s -> wf_op s (OInsertAfter self args) -> elem_args s args cs -> par (hp s self) = Some p ->
+  op_insert_after s self args = Ok s' ->
+  kids (hp s' p) = after_spec self cs (kids (hp s p)).
+Proof. exact op_insert_after_documented. Qed.
+Print Assumptions C02_insert_after_documented.
+
+Theorem C02_replace_with_documented : forall s self p args cs s',
+  consistent s -> wf_op s (OReplaceWith self args) -> elem_args s args cs -> ~ In self cs ->
+  par (hp s self) = Some p -> op_replace_with s self args = Ok s' ->
+  kids (hp s' p) = replace_spec self cs (kids (hp s p)).
+Proof. exact op_replace_with_documented. Qed.
+Print Assumptions C02_replace_with_documented.
